@@ -237,6 +237,15 @@ theorem onlyRoot_sameButG {t t' : Tree} {id : Id} (h : SameButG t t' id) (ho : O
   simp only [coreSelf, Prod.mk.injEq] at hc
   exact ho x w hw (by rw [hc.2.2.2]; exact hr)
 
+theorem onlyRoot_congr {t t' : Tree} (h : t'.wins = t.wins) (ho : OnlyRoot t) : OnlyRoot t' := by
+  intro x w hw hr; rw [h] at hw; exact ho x w hw hr
+
+theorem onlyRoot_sameBut {t t' : Tree} {id : Id} (h : SameBut t t' id) (ho : OnlyRoot t) : OnlyRoot t' := by
+  intro x w' hw' hr
+  obtain ⟨w, hw, hc⟩ := noVis_some (sameBut_noVis h x).symm hw'
+  simp only [coreNoVis, Prod.mk.injEq] at hc
+  exact ho x w hw (by rw [hc.2.2.2.2]; exact hr)
+
 theorem rootsPositive_sameButG {t t' : Tree} {id : Id} (h : SameButG t t' id) (hid : id ≠ 0) (ho : OnlyRoot t)
     (hpos : RootsPositive t) : RootsPositive t' := by
   intro x w' hw' hr
